@@ -13,6 +13,17 @@ var tokCont = []byte("abcxyz_^.~019-")
 var senWords = []string{"a", "abc", "nul", "nulls", "tru", "truex", "fals", "null_", "x-1", "_", "^a", ".x", "t", "n", "f", "é", "ünï"}
 
 func senToken(t *rapid.T) string {
+	if sim.Intn(t, 12, "longtoken") == 11 {
+		// longer than the parsers' initial scratch buffer (32 bytes)
+		n := 33 + sim.Intn(t, 120, "longlen")
+		var b strings.Builder
+		b.WriteByte(tokStart[sim.Intn(t, len(tokStart), "ts")])
+		seed := sim.Intn(t, len(tokCont), "tc")
+		for i := 1; i < n; i++ {
+			b.WriteByte(tokCont[(seed+i*7)%len(tokCont)])
+		}
+		return b.String()
+	}
 	if sim.Bool(t, "word") {
 		return senWords[sim.Intn(t, len(senWords), "w")]
 	}
@@ -153,6 +164,12 @@ func SENDoc(t *rapid.T, depth int) (doc []byte, inSpec bool) {
 	g := &senGen{t: t, allowExt: sim.Intn(t, 3, "senext") == 2}
 	var b strings.Builder
 	g.ows(&b)
+	if sim.Intn(t, 16, "bigsen") == 15 {
+		// strict JSON is SEN: deep / long-string / long-array / many-member documents
+		Big(t, &b)
+		g.ows(&b)
+		return []byte(b.String()), true
+	}
 	n := 1
 	if sim.Intn(t, 6, "senmulti") == 5 {
 		n = 2 + sim.Intn(t, 2, "n")
